@@ -1081,7 +1081,10 @@ class LazyStackedTensorDict(TensorDictBase):
             for td in self.tensordicts:
                 out.append(td._unbind(new_dim))
             return tuple(
-                self.lazy_stack(vals, new_stack_dim) for vals in _zip_strict(*out)
+                self.lazy_stack(
+                    vals, new_stack_dim, stack_dim_name=self._td_dim_name
+                )
+                for vals in _zip_strict(*out)
             )
 
     def _stack_onto_(
@@ -2984,7 +2987,9 @@ class LazyStackedTensorDict(TensorDictBase):
             return self
         # keep the stack lazy: a dense stack would copy the entries, while expand must
         # return views of the source (as it does for every other tensordict type)
-        return type(self)(*tensordicts, stack_dim=stack_dim)
+        return type(self)(
+            *tensordicts, stack_dim=stack_dim, stack_dim_name=self._td_dim_name
+        )
 
     @lock_blocked
     def update(
@@ -3690,11 +3695,14 @@ class LazyStackedTensorDict(TensorDictBase):
                             batch_size=batch_size,
                             device=self.device,
                             stack_dim=self.stack_dim,
+                            stack_dim_name=self._td_dim_name,
                         )
                         continue
                     stop = start + s
                     yield self._new_lazy_unsafe(
-                        *self.tensordicts[slice(start, stop)], stack_dim=self.stack_dim
+                        *self.tensordicts[slice(start, stop)],
+                        stack_dim=self.stack_dim,
+                        stack_dim_name=self._td_dim_name,
                     )
                     start = stop
 
@@ -3704,7 +3712,9 @@ class LazyStackedTensorDict(TensorDictBase):
         for td in self.tensordicts:
             tds.append(td.split(split_size, split_dim))
         return tuple(
-            self._new_lazy_unsafe(*tds, stack_dim=self.stack_dim)
+            self._new_lazy_unsafe(
+                *tds, stack_dim=self.stack_dim, stack_dim_name=self._td_dim_name
+            )
             for tds in _zip_strict(*tds)
         )
 
